@@ -17,9 +17,11 @@ import (
 //      a fixed point;
 //   4. gqlparser reads every print exactly as it read the source.
 //
-// Mixed documents (executable + type-system definitions, which gqlparser cannot read in one
-// pass) and documents with the September-2025 descriptions on executable definitions (unknown
-// to gqlparser 2.5.30) skip steps 0 and 4 and are labelled "no-differential".
+// Skipping steps 0 and 4 (label "no-differential"): mixed documents (gqlparser reads
+// executable and type-system documents through different entry points), the September-2025
+// descriptions on executable definitions and `extend interface … implements` (both unknown to
+// gqlparser 2.5.30), \uD83D\uDE00-style surrogate pairs (gqlparser decodes each half on its own)
+// and a leading BOM.
 
 var docsPart = pbt.Part[docCase]{Name: "docs-roundtrip", Quick: 120000, Thorough: 2400000, Gen: genDoc, Check: checkDoc}
 
@@ -54,7 +56,7 @@ func checkDoc(c docCase, o *pbt.Rec) pbt.Verdict {
 	in := []byte(c.Src)
 
 	var gq *gqExpect
-	if c.Kind != "mixed" && !feat["exec-description"] && !feat["bom"] {
+	if c.Kind != "mixed" && !feat["exec-description"] && !feat["bom"] && !feat["string-surrogate-pair"] && !feat["implements:extend-interface"] {
 		docsChecked.Add(1)
 		expG, ok := gview(c.Exp)
 		if !ok {
